@@ -60,7 +60,6 @@ structure R where
   pops : Nat := 0
   swcExpect : List (String × String × Int) := []   -- per caller thread: branch record (su/sd, value) the model predicted at `sr`
   peekRecheck : Bool := false          -- set by `replay` for an `aw` record: the worker's next record is a re-read (ip/ik)
-  killFirst : List (Nat × Int) := []   -- workers that re-read workerKill BEFORE the queue size (one L section: order free)
   fifoQ : Bool := true                 -- DefaultTaskQueue: Pop returns the oldest task (checked); engine.TaskQueue: any
   earlyBc : Nat := 0                   -- unlocked broadcasts already performed whose record is still to come
 
@@ -177,19 +176,14 @@ def stepRec (c : Rec) (r0 : R) : M R := do
     | "ip" =>
       let p ← argNat c.args 0
       expect (p == (r.s.queue.length : Int)) s!"ip: pending observed {p}, model {r.s.queue.length}"
-      let r ← ev (.readQ i) r
-      match r.killFirst.lookup i with
-      | some k =>
-        -- workerKill was re-read first (same L section; the two reads commute unless workerKill changed in between)
-        expect (k == r.s.kill) s!"ip: workerKill changed between the two re-reads ({k} then {r.s.kill}): their order matters in this run"
-        let r ← ev (.readKill i) r
-        pure { r with killFirst := r.killFirst.filter (·.1 != i) }
-      | none => pure r
+      -- at `hasL`: the queue size is re-read first; at `readK z`: second, the model decides with the value of
+      -- workerKill it read at the `ik` record (whatever workerKill is now)
+      ev (.readQ i) r
     | "ik" =>
       let k ← argNat c.args 0
       expect (k == r.s.kill) s!"ik: workerKill observed {k}, model {r.s.kill}"
-      if pcOf r i == .hasL then pure { r with killFirst := (i, k) :: r.killFirst.filter (·.1 != i) }
-      else ev (.readKill i) r
+      -- at `readQ p`: second read, decides; at `hasL`: first read (kill-first order), the value is kept in the pc
+      ev (.readKill i) r
     | "bw" => expect (pcOf r i == .willWait) "bw: model does not wait here"; pure { r with lazy := some i }
     | "aw" =>
       let r ← flush r
